@@ -9,7 +9,8 @@ CONSTANTS
   RunEnabled = TRUE
   Ops = {"submit", "status", "cancel"}
   FindUnitHoldsRLock = FALSE
-  KF_EmptyStatus = TRUE
+  TruncFirst = FALSE
+  KF_EmptyStatus = FALSE
   KF_CancelOverS = FALSE
   CancelKeepsSucceeded = TRUE
   KF_LiveRunnerFailed = TRUE
